@@ -2,7 +2,7 @@
    list, prod, unit, sumbool map to OCaml's own; N, Z, positive, nat stay as
    extracted inductives so 2^64 arithmetic is exact. No Extract Constant. *)
 From Coq Require Import ExtrOcamlBasic.
-From V Require Import Base.Prelude Base.Prog Meta.Model Flate.Spec XFlate.Index XFlate.Writer XFlate.Reader Bzip2.Common Bzip2.SpecR Bzip2.SpecW Brotli.Tables Brotli.Spec Life.Writers XFlate.C15 Prefix.Code XFlate.Refine XFlate.RefineCheck Prefix.ReaderImpl Prefix.ReaderSpec Prefix.ReaderImplX Prefix.WriterImpl XFlate.RoundTripStmt Window.Dict Window.DictSpec Window.DictBr Prefix.DecTable Prefix.Range Bzip2.Degenerate Brotli.BitReaderImpl Brotli.BitReaderSpec Brotli.PrefixDecoderImpl Flate.Impl Flate.ImplLife Bzip2.WriterImpl Meta.WriterImpl Bzip2.Impl Meta.ReaderImpl Bzip2.ImplLife XFlate.WriterReset XFlate.ReaderReset.
+From V Require Import Base.Prelude Base.Prog Meta.Model Flate.Spec XFlate.Index XFlate.Writer XFlate.Reader Bzip2.Common Bzip2.SpecR Bzip2.SpecW Brotli.Tables Brotli.Spec Life.Writers XFlate.C15 Prefix.Code XFlate.Refine XFlate.RefineCheck Prefix.ReaderImpl Prefix.ReaderSpec Prefix.ReaderImplX Prefix.WriterImpl XFlate.RoundTripStmt Window.Dict Window.DictSpec Window.DictBr Prefix.DecTable Prefix.Range Bzip2.Degenerate Brotli.BitReaderImpl Brotli.BitReaderSpec Brotli.PrefixDecoderImpl Flate.Impl Flate.ImplLife Bzip2.WriterImpl Meta.WriterImpl Bzip2.Impl Meta.ReaderImpl Bzip2.ImplLife XFlate.WriterReset XFlate.ReaderReset Brotli.Impl.
 Extraction Language OCaml.
 Extraction "model.ml"
   meta_encode meta_decode reverse_search computeHuffLen encode_block
@@ -36,4 +36,5 @@ Extraction "model.ml"
   Meta.ReaderImpl.mr_new Meta.ReaderImpl.mr_run Meta.ReaderImpl.mr_step Meta.ReaderImpl.observe
   Bzip2.ImplLife.bz_close Bzip2.ImplLife.bz_op Bzip2.ImplLife.bz_ops Bzip2.ImplLife.bz_life
   XFlate.WriterReset.xwr_start XFlate.WriterReset.ws_step XFlate.WriterReset.ws_run XFlate.WriterReset.ws_step_keepback XFlate.WriterReset.ws_run_keepback
-  XFlate.ReaderReset.rs_step XFlate.ReaderReset.rs_run XFlate.ReaderReset.new_reader.
+  XFlate.ReaderReset.rs_step XFlate.ReaderReset.rs_run XFlate.ReaderReset.new_reader
+  Brotli.Impl.br_new Brotli.Impl.br_reset Brotli.Impl.br_reads Brotli.Impl.br_read Brotli.Impl.br_close.
